@@ -6,6 +6,9 @@ cd /verif/engine || exit 2
 if [ ! -x /verif/bin/bhsverif ] || [ -n "$(find . -name '*.go' -newer /verif/bin/bhsverif 2>/dev/null | head -1)" ]; then
   mkdir -p /verif/bin && go build -o /verif/bin/bhsverif ./cmd/bhsverif || exit 2
 fi
+if [ ! -x /verif/bin/schemaprobe ]; then
+  go build -o /verif/bin/schemaprobe ./cmd/schemaprobe || exit 2
+fi
 cd /verif || exit 2
 id="$1"; tier="${2:-quick}"; shift; shift 2>/dev/null
 exec /verif/bin/bhsverif check "$id" --tier "$tier" "$@"
